@@ -5,6 +5,7 @@ package main
 
 import (
 	"fmt"
+	"go/ast"
 	"go/token"
 	"go/types"
 	"sort"
@@ -157,6 +158,42 @@ func (fx *FnExec) frameEnv(st *State, fr *frame) *evalEnv {
 				env.vars[al.Comment] = cval{t: st.load(lv), typ: et, sort: lv.elemSort}
 			} else {
 				env.vars[al.Comment] = cval{t: t, typ: al.Type(), sort: "Int"}
+			}
+		}
+	}
+	// locals with a single SSA definition, by their source name (DebugRef)
+	{
+		cands := map[string]map[ssa.Value]bool{}
+		for _, b := range fr.fn.Blocks {
+			for _, ins := range b.Instrs {
+				dr, ok := ins.(*ssa.DebugRef)
+				if !ok || dr.IsAddr {
+					continue
+				}
+				id, ok := dr.Expr.(*ast.Ident)
+				if !ok {
+					continue
+				}
+				if cands[id.Name] == nil {
+					cands[id.Name] = map[ssa.Value]bool{}
+				}
+				cands[id.Name][dr.X] = true
+			}
+		}
+		for name, vs := range cands {
+			if len(vs) != 1 {
+				continue
+			}
+			if _, dup := env.vars[name]; dup {
+				continue
+			}
+			for v := range vs {
+				if _, isConst := v.(*ssa.Const); isConst {
+					continue
+				}
+				if t, ok := st.vals[v]; ok {
+					env.vars[name] = cval{t: t, typ: v.Type(), sort: fx.sortOf(v.Type()), lv: st.lvs[v]}
+				}
 			}
 		}
 	}
@@ -604,11 +641,13 @@ func (ms *modScan) storeTarget(fn *ssa.Function, addr ssa.Value) {
 	}
 }
 
-func (ms *modScan) mapMod(mt *types.Map, fresh bool) {
+func (ms *modScan) mapMod(mt *types.Map, fresh bool) { ms.mapModAt(mt, fresh, "") }
+
+func (ms *modScan) mapModAt(mt *types.Map, fresh bool, point Term) {
 	ks, vs := ms.fx.sortOf(mt.Key()), ms.fx.sortOf(mt.Elem())
-	ms.add(mapInName(ks, vs), "(Array Int (Array "+ks+" Bool))", fresh)
-	ms.add(mapValName(ks, vs), "(Array Int (Array "+ks+" "+vs+"))", fresh)
-	ms.add("MapLen", arrOf("Int"), fresh)
+	ms.addAt(mapInName(ks, vs), "(Array Int (Array "+ks+" Bool))", fresh, point)
+	ms.addAt(mapValName(ks, vs), "(Array Int (Array "+ks+" "+vs+"))", fresh, point)
+	ms.addAt("MapLen", arrOf("Int"), fresh, point)
 }
 
 func (ms *modScan) chanMod(et types.Type, fresh bool) {
@@ -656,7 +695,8 @@ func (ms *modScan) scanInstr(fn *ssa.Function, ins ssa.Instruction, top bool) {
 	case *ssa.MakeChan:
 		ms.chanMod(nil, true)
 	case *ssa.MapUpdate:
-		ms.mapMod(x.Map.Type().Underlying().(*types.Map), ms.isFreshBase(x.Map))
+		pt, _ := ms.invariantVal(fn, x.Map)
+		ms.mapModAt(x.Map.Type().Underlying().(*types.Map), ms.isFreshBase(x.Map), pt)
 	case *ssa.Send:
 		ms.chanMod(x.X.Type(), false)
 	case *ssa.Select:
@@ -699,7 +739,8 @@ func (ms *modScan) scanCall(fn *ssa.Function, cc *ssa.CallCommon, site ssa.Instr
 			es := fx.sortOf(cc.Args[0].Type().Underlying().(*types.Slice).Elem())
 			ms.add("Mem."+sanitize(es), "(Array Int "+arrOf(es)+")", false)
 		case "delete":
-			ms.mapMod(cc.Args[0].Type().Underlying().(*types.Map), ms.isFreshBase(cc.Args[0]))
+			pt, _ := ms.invariantVal(fn, cc.Args[0])
+			ms.mapModAt(cc.Args[0].Type().Underlying().(*types.Map), ms.isFreshBase(cc.Args[0]), pt)
 		case "close":
 			ms.chanMod(nil, false)
 		}
